@@ -2,7 +2,7 @@
    Statements only; each is closed by [exact] of a lemma proved in Strconv/*Proofs.v. *)
 From Coq Require Import Reals Floats.SpecFloat.
 From Flocq Require Import Core.Core IEEE754.BinarySingleNaN.
-From Verif Require Import Common.Base Strconv.Model Strconv.FModel Strconv.IntProofs Strconv.NumProofs Strconv.DecProofs Strconv.ScanProofs Strconv.FloatProofs Strconv.Legacy.
+From Verif Require Import Common.Base Strconv.Model Strconv.FModel Strconv.IntProofs Strconv.NumProofs Strconv.DecProofs Strconv.ScanProofs Strconv.FloatProofs Strconv.DecValueProofs Strconv.Legacy.
 Open Scope Z_scope.
 
 (* ParseInt, for EVERY byte string: written as sign ++ digits ++ rest (sign = "", "+" or "-";
@@ -153,3 +153,33 @@ Theorem append_decimal_legacy_refuted :
     ad_print_legacy [] [] num dec = Ok out /\ out <> dec_text num dec /\ out = [48; 46; 48; 57; 54].
 Proof. exact Legacy.append_decimal_legacy_refuted. Qed.
 Print Assumptions append_decimal_legacy_refuted.
+
+(* ParseDecimal's value, PARTIAL: the exact fast path.  For  -? 0..0 d1 digits [. digits]  (first non-zero
+   digit in front of the dot, or no dot) with at most 18 characters from d1 on and digits denoting
+   n < 2^53, the result is the correctly rounded value of +-n / 10^(number of decimals); likewise for
+   -? 0..0 . 0..0 d1 digits  with at most 18 significant digits, n < 2^53 and at most 22 decimals in all.
+   MISSING: the 1e-14 bound for longer inputs (18-digit truncation, more decimals): search only; false
+   beyond 308 decimals (listed finding). *)
+Theorem parse_decimal_fastpath_int_partial : forall sg zs d1 ip' fp (dot : bool) tail,
+  (sg = [] \/ sg = [45]) -> all_zeros zs -> nonzero_digit d1 -> all_digits ip' -> all_digits fp ->
+  (dot = false -> fp = []) -> ends_mant dot tail ->
+  len (d1 :: ip') + (if dot then 1 + len fp else 0) <= 18 ->
+  let n := dec_value ((d1 :: ip') ++ fp) in
+  n < 2 ^ 53 ->
+  exists (v : binary_float 53 1024) k,
+    parse_decimal (sg ++ zs ++ (d1 :: ip') ++ (if dot then 46 :: fp else []) ++ tail) = Ok (B2SF v, k) /\
+    is_finite v = true /\ B2R v = round64 (dec_real (sign_neg sg) n (- len fp)).
+Proof. exact parse_decimal_fastpath_int_proof. Qed.
+Print Assumptions parse_decimal_fastpath_int_partial.
+
+Theorem parse_decimal_fastpath_frac_partial : forall sg zs1 zs2 d1 sp' tail,
+  (sg = [] \/ sg = [45]) -> all_zeros zs1 -> all_zeros zs2 -> nonzero_digit d1 -> all_digits sp' ->
+  ends_mant true tail ->
+  len (d1 :: sp') <= 18 -> len zs2 + len (d1 :: sp') <= 22 ->
+  let n := dec_value (d1 :: sp') in
+  n < 2 ^ 53 ->
+  exists (v : binary_float 53 1024) k,
+    parse_decimal (sg ++ zs1 ++ 46 :: zs2 ++ (d1 :: sp') ++ tail) = Ok (B2SF v, k) /\
+    is_finite v = true /\ B2R v = round64 (dec_real (sign_neg sg) n (- (len zs2 + len (d1 :: sp')))).
+Proof. exact parse_decimal_fastpath_frac_proof. Qed.
+Print Assumptions parse_decimal_fastpath_frac_partial.
